@@ -54,6 +54,9 @@ type c10ctx struct {
 	scope map[*ssa.Function]bool
 	sumLo *big.Int
 	sumHi *big.Int
+	// costRule: also flag loops bounded only by the length of their input that accumulate a string by
+	// concatenation (work quadratic in a request field)
+	costRule bool
 }
 
 // LenAt: bounds of len(x) at block b.
@@ -220,6 +223,32 @@ func (x *c10ctx) checkSliceSite(f *ssa.Function, s *ssa.Slice, rule string) {
 		return
 	}
 	x.c.Bad(rule, fn, construct, "possible slice bounds out of range: "+whyL+whyH, x.w.InstrPos(s))
+}
+
+// assumeSuiteContract: Config() fields after Validate()==nil on the same receiver are within the
+// ranges that the decision-table rule R14.2 (re-run here) proves for every in-module implementer.
+func (x *c10ctx) assumeSuiteContract() {
+	c, w, tb, iv := x.c, x.w, x.tb, x.iv
+	ruleSuiteAdmission(c, w, tb)
+	for f := range x.scope {
+		EachInstr(f, func(in ssa.Instruction) {
+			if cl, ok := in.(*ssa.Call); ok && cl.Call.IsInvoke() && cl.Call.Method.Name() == "Config" {
+				recv := tb.Of(cl.Call.Value).String()
+				gated := false
+				for _, at := range atomsOf(CondsAt(cl.Block())) {
+					t := tb.Of(at.X)
+					if at.Op == token.EQL && isNilConst(at.Y) && t.Op == "invoke" && strings.HasSuffix(t.Sym, ".Validate") && t.Args[0].String() == recv {
+						gated = true
+					}
+				}
+				if gated {
+					ct := tb.Of(cl).String()
+					iv.Assume["field(Digits; "+ct+")"] = Itv{bi(4), bi(10)}
+					iv.Assume["field(Hash; "+ct+")"] = Itv{bi(0), bi(2)}
+				}
+			}
+		})
+	}
 }
 
 // ---- preconditions of unexported functions (lifting) ---------------------------------------------
@@ -527,6 +556,25 @@ func (x *c10ctx) checkLoops(f *ssa.Function, rule string) {
 				}
 			}
 		}
+		if bounded && x.costRule && (strings.HasPrefix(why, "range over") || strings.Contains(why, "[0,16777216]")) {
+			for _, in := range h.Instrs {
+				ph, ok := in.(*ssa.Phi)
+				if !ok {
+					break
+				}
+				if b, isB := ph.Type().Underlying().(*types.Basic); !isB || b.Kind() != types.String {
+					continue
+				}
+				for i, e := range ph.Edges {
+					if !h.Dominates(h.Preds[i]) {
+						continue
+					}
+					if bo, ok := e.(*ssa.BinOp); ok && bo.Op == token.ADD && (bo.X == ssa.Value(ph) || bo.Y == ssa.Value(ph)) {
+						x.c.Bad(rule, fn, construct+":quadratic", "a string is built by repeated concatenation inside a loop that runs once per element of its input: the work is quadratic in the input length (minutes for a 1 MiB request field)", x.w.InstrPos(bo))
+					}
+				}
+			}
+		}
 		if bounded {
 			x.c.OK(rule, fn, construct, "bounded loop: "+why, pos)
 		} else {
@@ -616,28 +664,7 @@ func runC10(c *Check, w *World) {
 	if f := w.Func(OtpPath, "LeftPadHex"); f != nil && len(f.Params) == 2 {
 		iv.Assume[tb.Of(f.Params[1]).String()] = Itv{bi(0), bi(1 << 20)}
 	}
-	// suite contract (proved by R14.2, re-run here) for Config() fields after Validate()==nil
-	ruleSuiteAdmission(c, w, tb)
-	for f := range x.scope {
-		EachInstr(f, func(in ssa.Instruction) {
-			if cl, ok := in.(*ssa.Call); ok && cl.Call.IsInvoke() && cl.Call.Method.Name() == "Config" {
-				// the contract applies where Validate() of the same receiver was checked before
-				recv := tb.Of(cl.Call.Value).String()
-				gated := false
-				for _, at := range atomsOf(CondsAt(cl.Block())) {
-					t := tb.Of(at.X)
-					if at.Op == token.EQL && isNilConst(at.Y) && t.Op == "invoke" && strings.HasSuffix(t.Sym, ".Validate") && t.Args[0].String() == recv {
-						gated = true
-					}
-				}
-				if gated {
-					ct := tb.Of(cl).String()
-					iv.Assume["field(Digits; "+ct+")"] = Itv{bi(4), bi(10)}
-					iv.Assume["field(Hash; "+ct+")"] = Itv{bi(0), bi(2)}
-				}
-			}
-		})
-	}
+	x.assumeSuiteContract()
 	x.liftPreconditions(exported)
 
 	// --- bounds: compiler residuals, each discharged by the interval engine ---
